@@ -84,7 +84,7 @@ CHECKS.update({
             "dominance ordering on MIR, binding-origin rules and taint-to-quoted-sink enumeration on templates",
             "Decides: file layout order notice/imports/declaration/newline and docs/export/decl (R1); every property-name slot is bound directly to "
             "the quoting routine (R2); identifiers are un-raw'ed before becoming text (R3); every quoted interpolation without escaping is "
-            "enumerated (R4, known findings: no escaping routine exists). Parsing all outputs under a TypeScript grammar is NOT decided."),
+            "escaped by a recognised routine (R4; repaired by df5d127); writer/reader agreement with merge() (R5). Parsing all outputs under a TypeScript grammar is NOT decided."),
     "C07": ("DESIGN.md section 3/C07",
             "sibling agreement of generic-parameter emitters and template scope analysis on the syntax tree",
             "Decides: the seven emitters of the item's type parameters use the same source and treat `concrete` consistently (droppers vs replacers), "
@@ -112,7 +112,7 @@ CHECKS.update({
             "field-level information-flow (role classification of every read of a docs field), sanitizer-on-path rule on MIR, dominance ordering",
             "Decides: doc text flows only into documentation sinks (R1); both member templates carry docs in the first slot and docs precede "
             "`export` (R2); every doc literal passes replace(\"*/\", ..) before it is wrapped (R3); the blank-line contract between doc rendering "
-            "and merge() is reported (R4, known finding). That the comment contains the text verbatim is NOT decided."),
+            "and merge() is enforced by the same routine (R4; repaired by ec0e636). That the comment contains the text verbatim is NOT decided."),
 })
 
 NOT_APPLICABLE = {
